@@ -4,6 +4,7 @@ package main
 
 import (
 	"fmt"
+	"strconv"
 	"go/ast"
 	"go/constant"
 	"go/token"
@@ -63,6 +64,9 @@ type Unit struct {
 	funcLits  []*ast.FuncLit
 	rangeVars map[int]*types.Var
 	visitedVars map[int]*types.Var
+	inlineLit map[*ast.FuncLit]bool
+	litOfVar  map[*types.Var]*ast.FuncLit
+	inlineStack []*inlineFrame
 	mentionsHeld bool
 }
 
@@ -120,7 +124,16 @@ func (u *Unit) zeroOf(t types.Type) Term {
 		z := c.idxConst(0)
 		return Term{S: fmt.Sprintf("(mk_slice 0 %s %s %s)", z, z, z), T: t}
 	case *types.Array:
-		return Term{S: fmt.Sprintf("((as const %s) %s)", c.sortOf(t), u.zeroOf(ut.Elem()).S), T: t}
+		ez := u.zeroOf(ut.Elem()).S
+		if strings.HasPrefix(ez, "zero_") || ez == "any.nil" {
+			// cvc5 accepts only values in constant arrays: use a named array with a defining axiom
+			as := c.sortOf(t)
+			name := "zeroarr_" + sanitize(as)
+			c.declareFun(name, "() "+as)
+			c.declareRaw("def_"+name, fmt.Sprintf("(assert (forall ((k %s)) (= (select %s k) %s)))", c.idxSort(), name, ez))
+			return Term{S: name, T: t}
+		}
+		return Term{S: fmt.Sprintf("((as const %s) %s)", c.sortOf(t), ez), T: t}
 	case *types.Struct:
 		name := c.sortOf(t)
 		if ut.NumFields() == 0 {
@@ -430,8 +443,32 @@ func (u *Unit) declareVar(st *State, v *types.Var, val Term) {
 	u.writeVar(st, v, val)
 }
 
+// knownExternalVars: package variables of dependencies that the repository never assigns, with the value of their
+// initialiser (trusted; listed in the evidence).
+var knownExternalVars = map[string]int64{
+	"github.com/ipld/go-car/util.MaxAllowedSectionSize": 32 << 20,
+}
+
+func (u *Unit) entryOr(st *State) *State {
+	if u.entry != nil {
+		return u.entry
+	}
+	return st
+}
+
 func (u *Unit) readGlobal(st *State, v *types.Var) Term {
 	name := "gv_" + sanitize(v.Pkg().Name()) + "_" + sanitize(v.Name())
+	if v.Pkg().Path() == "io" && v.Name() == "Discard" {
+		u.c.declareFun("gv_io_Discard", "() Int")
+		u.c.declareRaw("nonnil_io_Discard", "(assert (and (> gv_io_Discard 0) (< gv_io_Discard alloc@0)))")
+		return Term{S: "gv_io_Discard", T: v.Type()}
+	}
+	if k, ok := knownExternalVars[v.Pkg().Path()+"."+v.Name()]; ok {
+		if bits, signed, isInt := intInfo(v.Type()); isInt {
+			u.c.note("external package variable %s.%s taken as its initialiser value %d (trusted)", v.Pkg().Name(), v.Name(), k)
+			return Term{S: u.c.constInt(big.NewInt(k), bits, signed), T: v.Type(), K: big.NewInt(k)}
+		}
+	}
 	if isErrorType(v.Type()) {
 		// error sentinels: immutable, distinct, non-nil
 		id, ok := u.c.errConsts[name]
@@ -449,6 +486,24 @@ func (u *Unit) readGlobal(st *State, v *types.Var) Term {
 		}
 		u.c.declareFun(name, "() "+u.c.sortOf(v.Type()))
 		t := Term{S: name, T: v.Type()}
+		// []byte("literal"): the length is known
+		if call, ok := ast.Unparen(u.eng.globalInit(v)).(*ast.CallExpr); ok && len(call.Args) == 1 {
+			if bl, ok := ast.Unparen(call.Args[0]).(*ast.BasicLit); ok && bl.Kind == token.STRING {
+				if _, isSlice := v.Type().Underlying().(*types.Slice); isSlice {
+					if str, err := strconv.Unquote(bl.Value); err == nil {
+						u.c.declareRaw("len_"+name, fmt.Sprintf("(assert (and (= (s.len %s) %s) (> (s.ref %s) 0) (< (s.ref %s) alloc@0) (= (s.off %s) %s)))", name, u.c.idxConst(int64(len(str))), name, name, name, u.c.idxConst(0)))
+						if sl, ok := v.Type().Underlying().(*types.Slice); ok && len(str) <= 64 {
+							if bits, signed, isInt := intInfo(sl.Elem()); isInt {
+								h := u.elemHeap(sl.Elem())
+								for i := 0; i < len(str); i++ {
+									st.assume(eq(fmt.Sprintf("(select (select %s (s.ref %s)) %s)", u.heapCur(u.entryOr(st), h), name, u.c.idxConst(int64(i))), u.c.constInt(big.NewInt(int64(str[i])), bits, signed)))
+								}
+							}
+						}
+					}
+				}
+			}
+		}
 		// an immutable package variable initialised with something other than nil is non-nil (trusted initialiser)
 		if init := u.eng.globalInit(v); init != nil && u.c.sortOf(v.Type()) == "Int" {
 			if id, ok := ast.Unparen(init).(*ast.Ident); !ok || id.Name != "nil" {
